@@ -16,9 +16,9 @@ if __name__ == '__main__':
     db = ContractDB().load_dir('/verif/contracts')
     names = sys.argv[1:] or sorted(db.contracts)
     for q in names:
-        for c in db.contracts[q]:
+        for c, case in [(c, case) for c in db.contracts[q] for case in db.cases_of(c)]:
             t = time.time()
-            fr = verify_function(prog, db, q, c)
+            fr = verify_function(prog, db, q, c, case=case)
             if fr.degraded:
                 print('DEGRADED', q, fr.degraded)
             res = smt.discharge(fr.obligations, timeout=int(os.environ.get('VK_TMO', '20')))
@@ -28,4 +28,4 @@ if __name__ == '__main__':
                 if not ok or os.environ.get('VK_V'):
                     print('  %-4s %-60s %-8s %-6s %.2fs  %s' % ('ok' if ok else 'FAIL', o.id, r.verdict, r.backend, r.secs, o.meta['text'][:90]))
                 bad += not ok
-            print('%s: %d obligations, %d failed, %d paths, %.1fs' % (q, len(res), bad, fr.paths, time.time() - t))
+            print('%s%s: %d obligations, %d failed, %d paths, %.1fs' % (q, case or '', len(res), bad, fr.paths, time.time() - t))
